@@ -1,5 +1,6 @@
 import Pamqp.Spec.Defs
 import Pamqp.Generated.Catalogue
+import Pamqp.Proofs.PropsLoop
 /-!
 # C02 — content header and Basic.Properties survive encode-then-decode
 -/
@@ -30,8 +31,8 @@ theorem C02_roundtrip_generic (cat : Cat) (hwf : Spec.flagsWF cat.props = true)
     ∃ bs, Frame.marshal legacy cat (.header cls weight (.int size) vals) (.int ch) = .ok bs ∧
       Frame.unmarshal cat (bs ++ rest) =
         .ok (bs.length, ch, .header (.int cat.basicClassId) (.int 0) (.int size)
-              (Spec.expectedProps (cat.props.zip vals))) := by
-  sorry
+              (Spec.expectedProps (cat.props.zip vals))) :=
+  Proofs.header_frame_roundtrip cat hwf hcls legacy vals hlen hok hsz size hsize cls weight ch hc rest
 
 /-- the property, for the regenerated property table (class id 60) -/
 theorem C02_header_roundtrip (legacy : Bool)
@@ -49,8 +50,8 @@ theorem C02_header_roundtrip (legacy : Bool)
 
 /-- the "sign problem": reading the flag word signed does not change which flags are seen -/
 theorem C02_signed_flag_word (u m : Nat) (hu : u < 65536) (hm : m < 65536) :
-    pyAndMask (unbeS (beN 2 u)) m = u &&& m := by
-  sorry
+    pyAndMask (unbeS (beN 2 u)) m = u &&& m :=
+  Proofs.signed_flag_word u m hu hm
 
 /-- the deprecated cluster id stays the empty string when unset -/
 theorem C02_cluster_id_default :
